@@ -25,17 +25,22 @@ LEVEL_TEXT = ("order_is_function_of_set, preferred_first, upload_only_permitted,
 LEVEL_NOTE = ("Lean kernel + standard axioms; SHA-1 digests are computed by Python (hashlib) and passed as sort keys; upload_permitted is "
               "an input of the model, set by the harness from the certificate construction metadata (C33's documented predicate); the "
               "preferred list modelled is the repaired one (fixes/C32-preferred-bytes.diff).")
-RULE = ("seeded (server set, insertion orders, tahoe.cfg preferred list and grid-manager keys, certificates, storage index) tuples against real "
-        "StorageFarmBroker / NativeStorageServer / Publish objects; a case is one get_servers_for_psi or update_goal call; distinct = distinct "
-        "driver lines; non-trivial = at least two servers are connected")
+RULE = ("seeded HISTORIES on long-lived objects: two real StorageFarmBroker objects (same server set, different insertion order, tahoe.cfg "
+        "preferred list and grid-manager keys) and their NativeStorageServer objects are queried repeatedly (upload_permitted, "
+        "get_servers_for_psi with both for_upload values and fresh storage indexes, Publish.update_goal) while a patched clock steps "
+        "forward across every certificate expiry instant (one microsecond before, exactly at, one microsecond after, and beyond); every "
+        "answer is compared with the documented predicate at the current time and with the driver; a case is one call; distinct = distinct "
+        "(driver line, clock value); non-trivial = at least two servers are connected")
 TRUSTED = ["lean/Tahoe/StorageClient/Model.lean is a hand transcription of get_servers_for_psi and update_goal (sorted() modelled as stable insertion sort)",
            "hashlib.sha1 (the model receives SHA-1(psi + permutation seed) from the harness, computed independently of hashutil.permute_server_hash)",
            "the iteration order of the frozenset of connected servers is read back from get_connected_servers() (only matters for equal sort keys)"]
 ASSUMPTIONS = ["servers are added through StorageFarmBroker.test_add_rref / _make_storage_server (no Tub can be created in this sandbox: pyOpenSSL lacks X509Req), so connection management is not exercised",
-               "certificate expiry is at least one hour away from the wall clock in either direction (the instant of expiry is C33's subject)",
+               "the clock is allmydata.grid_manager.current_datetime_with_zone, replaced by a stepping clock for the duration of the run (the broker passes no now_fn, so this is the clock the verifiers read); certificates have no not-before field, so a server cannot become permitted later without a new announcement",
                "Publish objects are built with Publish.__new__ and only the attributes update_goal reads"]
 
 FURL = "pb://62ubehyunnyhzs7r6vdonnm2hpi52w6y@127.0.0.1:1/x"
+T0 = datetime(2030, 1, 1, 12, 0, 0, tzinfo=timezone.utc)
+CLOCK = [T0]
 
 
 def b32(b):
@@ -50,23 +55,32 @@ def keypair(seed_hex):
 def gen_case(rng):
     n = rng.choice([1, 2, 3, 4, 5, 6, 8])
     gm_seeds = [rng.randbytes(32).hex() for _ in range(3)]
-    gm_keys = [] if rng.random() < 0.3 else rng.sample(range(3), rng.choice([1, 1, 2]))
+    gm_keys = [] if rng.random() < 0.2 else rng.sample(range(3), rng.choice([1, 1, 2]))
     shared_seed = b32(rng.randbytes(rng.choice([4, 20])))
     servers = []
+    exps = []
     for i in range(n):
         r = rng.random()
         perm = None if r < 0.4 else (shared_seed if r < 0.5 else b32(rng.randbytes(rng.choice([1, 8, 20, 32]))))
         certs = []
-        for _ in range(rng.choice([0, 1, 1, 2])):
-            kind = rng.choice(["good", "good", "good", "expired", "foreign", "other-server", "tampered"])
+        for _ in range(rng.choice([0, 1, 1, 2, 3])):
+            kind = rng.choice(["good", "good", "good", "good", "expired", "foreign", "other-server", "tampered"])
             if kind == "other-server" and n < 2:
                 kind = "good"
             g = rng.choice(gm_keys) if (gm_keys and kind != "foreign") else rng.randrange(3)
             if kind == "foreign":
                 others = [x for x in range(3) if x not in gm_keys]
                 g = rng.choice(others) if others else g
-            days = rng.choice([1 / 24.0, 1, 30, 400]) * (-1 if kind == "expired" else 1)
-            certs.append({"kind": kind, "gm": g, "for": i if kind != "other-server" else (i + 1) % max(n, 2), "days": days})
+            # expiry as microseconds after T0 (the clock starts at T0 and only moves forward)
+            if kind == "expired":
+                exp = -rng.choice([1, 10**6, 86400 * 10**6, 400 * 86400 * 10**6])
+            elif exps and rng.random() < 0.25:
+                exp = rng.choice(exps) + rng.choice([0, 1, -1])
+            else:
+                exp = rng.choice([1, 2, 1000, 10**6, 3600 * 10**6, 86400 * 10**6, 400 * 86400 * 10**6]) * rng.choice([1, 1, 3, 7])
+            if kind != "expired" and exp > 0:
+                exps.append(exp)
+            certs.append({"kind": kind, "gm": g, "for": i if kind != "other-server" else (i + 1) % max(n, 2), "exp": exp})
         servers.append({"seed": rng.randbytes(32).hex(), "perm": perm, "connected": rng.random() < 0.85, "certs": certs,
                         "nickname": "srv%d" % i})
     pref = []
@@ -77,18 +91,28 @@ def gen_case(rng):
     orders = [list(range(n)), list(range(n))]
     rng.shuffle(orders[0])
     rng.shuffle(orders[1])
-    goal_cases = []
-    for _ in range(2):
+    # the clock: starts at T0, then walks over expiry instants (before / exactly at / after), strictly forward
+    times = {0}
+    for e in rng.sample(sorted(set(exps)), min(len(set(exps)), 3)):
+        for d in rng.sample([-1, 0, 1, 5], rng.choice([2, 3, 4])):
+            if e + d >= 0:
+                times.add(e + d)
+    if exps:
+        times.add(max(exps) + rng.choice([1, 10**9]))
+    times.add(rng.randrange(0, 10**7))
+    steps = []
+    for t in sorted(times):
         total = rng.choice([1, 2, 3, 5, 10])
-        goal = sorted(set((rng.randrange(n), rng.randrange(total)) for _ in range(rng.choice([0, 0, 1, 2, 4, 8]))))
-        bad = sorted(rng.sample(range(n), rng.choice([0, 0, 1, min(2, n)])))
-        goal_cases.append({"total": total, "goal": [list(x) for x in goal], "bad": bad})
+        goal = sorted(set((rng.randrange(n), rng.randrange(total)) for _ in range(rng.choice([0, 0, 1, 2, 4]))))
+        bad = sorted(rng.sample(range(n), rng.choice([0, 0, 0, 1, min(2, n)])))
+        steps.append({"t": t, "psi": rng.randbytes(16).hex(),
+                      "goal": {"total": total, "goal": [list(x) for x in goal], "bad": bad} if rng.random() < 0.6 else None})
     return {"gm_seeds": gm_seeds, "gm_keys": gm_keys, "servers": servers, "preferred": [list(p) for p in pref], "orders": orders,
-            "psi": [rng.randbytes(16).hex() for _ in range(2)], "goals": goal_cases}
+            "steps": steps}
 
 
 class World:
-    """The real objects of one case."""
+    """The real, long-lived objects of one history."""
 
     def __init__(self, case, workdir):
         from allmydata.crypto import ed25519
@@ -96,38 +120,31 @@ class World:
         from allmydata.client import _valid_config
         from allmydata.storage_client import StorageClientConfig
         self.case = case
-        self.now = datetime.now(timezone.utc)
         self.gms = [keypair(s) for s in case["gm_seeds"]]
         self.skeys = [keypair(s["seed"]) for s in case["servers"]]
         self.sids = [ed25519.string_from_verifying_key(pk)[len(b"pub-"):] for (_, pk) in self.skeys]
         names = []
         for kind, v in case["preferred"]:
             names.append(self.sids[v].decode("ascii") if kind == "s" else v)
-        self.pref_names = names
         txt = "[client]\n"
         if names:
             txt += "peers.preferred = %s\n" % ", ".join(names)
         if case["gm_keys"]:
             txt += "[grid_managers]\n" + "".join(
                 "gm%d = %s\n" % (g, ed25519.string_from_verifying_key(self.gms[g][1]).decode("ascii")) for g in case["gm_keys"])
-        self.cfgtxt = txt
         self.cfg = config_from_string(os.path.join(workdir, "no-such-basedir"), "tub.port", txt, _valid_config())
         self.scc = StorageClientConfig.from_node_config(self.cfg)
         self.anns = [self.announcement(i) for i in range(len(case["servers"]))]
-        # construction metadata → the documented permission predicate (C33), not the code's answer
-        self.permitted = []
-        for i, s in enumerate(case["servers"]):
-            ok = (not case["gm_keys"]) or any(c["kind"] in ("good", "expired") and c["gm"] in case["gm_keys"] and c["for"] == i and c["days"] > 0
-                                              for c in s["certs"])
-            self.permitted.append(ok)
         self.seeds = []
         for i, s in enumerate(case["servers"]):
-            if s["perm"] is not None:
-                p = s["perm"].upper()
-                self.seeds.append(base64.b32decode(p + "=" * (-len(p) % 8)))
-            else:
-                raw = self.sids[i][3:].decode("ascii").upper()
-                self.seeds.append(base64.b32decode(raw + "=" * (-len(raw) % 8)))
+            raw = s["perm"].upper() if s["perm"] is not None else self.sids[i][3:].decode("ascii").upper()
+            self.seeds.append(base64.b32decode(raw + "=" * (-len(raw) % 8)))
+
+    def permitted(self, i, t):
+        """The documented predicate (C33) at clock value t, from the construction metadata only."""
+        case = self.case
+        return (not case["gm_keys"]) or any(c["kind"] in ("good", "expired") and c["gm"] in case["gm_keys"] and c["for"] == i and c["exp"] > t
+                                            for c in case["servers"][i]["certs"])
 
     def announcement(self, i):
         from allmydata.crypto import ed25519
@@ -137,14 +154,13 @@ class World:
             ann["permutation-seed-base32"] = s["perm"]
         certs = []
         for c in s["certs"]:
-            exp = self.now + timedelta(days=c["days"])
+            exp = T0 + timedelta(microseconds=c["exp"])
             target = self.sids[c["for"] % len(self.sids)]
             body = json.dumps({"expires": exp.isoformat(), "public_key": "pub-" + target.decode("ascii"), "version": 1},
                               separators=(",", ":"), sort_keys=True).encode("utf-8")
             sig = ed25519.sign_data(self.gms[c["gm"]][0], body)
             if c["kind"] == "tampered":
-                # a certificate for another server / an expired one re-targeted to this server under the old signature
-                body = body.replace(b'"version":1', b'"version":1 ')
+                body = body.replace(b'"version":1', b'"version":1 ')       # bytes changed after signing
             certs.append({"certificate": body.decode("utf-8"), "signature": b32(sig)})
         if certs:
             ann["grid-manager-certificates"] = certs
@@ -177,29 +193,38 @@ def pref_ids(w):
     return res
 
 
-def psi_line(w, sb, psi, fu):
+def psi_line(w, sb, psi, fu, t):
     conn = [w.idx(s) for s in sb.get_connected_servers()]
     rest = [i for i in range(len(w.sids)) if i not in conn]
     toks = []
     for i in conn + rest:
-        toks.append("%d:%d:%d:%s" % (i, 1 if w.case["servers"][i]["connected"] else 0, 1 if w.permitted[i] else 0,
+        toks.append("%d:%d:%d:%s" % (i, 1 if w.case["servers"][i]["connected"] else 0, 1 if w.permitted(i, t) else 0,
                                      hashlib.sha1(psi + w.seeds[i]).hexdigest()))
     return "psi %s %d %s" % (",".join(map(str, pref_ids(w))) or "-", 1 if fu else 0, " ".join(toks))
 
 
-def monitor_psi(ctx, w, case, psi, fu, a_ids, b_ids):
+def stale_sig(w, i, t, base):
+    """signature of a wrongly offered server: was it permitted earlier in this history (certificate expired since)?"""
+    if w.permitted(i, 0) and not w.permitted(i, t):
+        return base + ":stale-after-expiry"
+    kinds = sorted(set(c["kind"] for c in w.case["servers"][i]["certs"])) or ["no-cert"]
+    return base + ":" + "+".join(kinds)
+
+
+def monitor_psi(ctx, w, case, step, psi, fu, t, a_ids, b_ids):
     n = len(w.sids)
-    key = lambda i: (i not in [v for (k, v) in case["preferred"] if k == "s"], hashlib.sha1(psi + w.seeds[i]).digest())
-    eligible = [i for i in range(n) if case["servers"][i]["connected"] and (not fu or w.permitted[i])]
+    prefs = [v for (k, v) in case["preferred"] if k == "s"]
+    key = lambda i: (i not in prefs, hashlib.sha1(psi + w.seeds[i]).digest())
+    eligible = [i for i in range(n) if case["servers"][i]["connected"] and (not fu or w.permitted(i, t))]
     distinct = len(set(key(i) for i in eligible)) == len(eligible)
-    tag = {"psi": psi.hex(), "for_upload": fu}
+    tag = {"step": step, "t": t, "psi": psi.hex(), "for_upload": fu}
     for name, ids in (("A", a_ids), ("B", b_ids)):
         if fu:
-            extra = [i for i in ids if not w.permitted[i]]
+            extra = [i for i in ids if not w.permitted(i, t)]
             missing = [i for i in eligible if i not in ids]
             if extra:
-                ctx.violation("for_upload list contains a server without a currently valid grid-manager certificate", dict(case, at=tag),
-                              "upload-filter:unpermitted-included:" + "+".join(sorted(set(c["kind"] for i in extra for c in case["servers"][i]["certs"])) or ["no-cert"]))
+                ctx.violation("for_upload list contains a server without a currently valid grid-manager certificate (clock T0+%dus)" % t,
+                              dict(case, at=tag), stale_sig(w, extra[0], t, "upload-filter:unpermitted-included"))
             if missing:
                 ctx.violation("for_upload list drops a server holding a valid grid-manager certificate", dict(case, at=tag),
                               "upload-filter:permitted-dropped")
@@ -224,33 +249,45 @@ def monitor_psi(ctx, w, case, psi, fu, a_ids, b_ids):
 def run_case(ctx, case, workdir, lines, impl, cases, canon):
     from allmydata.mutable.publish import Publish
     from allmydata.mutable.common import NotEnoughServersError
+    CLOCK[0] = T0
     w = World(case, workdir)
     with contextlib.redirect_stdout(io.StringIO()):     # create_grid_manager_verifier print()s every failed signature
         A, B = w.broker(case["orders"][0]), w.broker(case["orders"][1])
     nconn = sum(1 for s in case["servers"] if s["connected"])
-    # the code's own upload_permitted must equal the documented predicate (ties C32's filter to C33)
-    for s in A.servers.values():
-        got = s.upload_permitted()
-        if got != w.permitted[w.idx(s)]:
-            ctx.violation("upload_permitted() differs from the documented certificate predicate", case,
-                          "upload-permitted-wrong:" + ("granted" if got else "denied"))
-    for psi_hex in case["psi"]:
-        psi = bytes.fromhex(psi_hex)
+    byidx = {w.idx(s): s for s in A.servers.values()}
+    n = len(w.sids)
+    for si, st in enumerate(case["steps"]):
+        t = st["t"]
+        CLOCK[0] = T0 + timedelta(microseconds=t)
+        psi = bytes.fromhex(st["psi"])
+        at_expiry = any(c["exp"] == t for s in case["servers"] for c in s["certs"])
+        ctx.count("clock:" + ("start" if t == 0 else "at-an-expiry-instant" if at_expiry else "other"))
+        # every long-lived server object, asked again at the current time
+        for sb in (A, B):
+            for s in sb.servers.values():
+                i = w.idx(s)
+                got, want = s.upload_permitted(), w.permitted(i, t)
+                ctx.count("upload_permitted:%s" % want)
+                if got is not want:
+                    sig = stale_sig(w, i, t, "upload-permitted-wrong:granted") if got else "upload-permitted-wrong:denied"
+                    ctx.violation("upload_permitted() = %r differs from the documented certificate predicate at clock T0+%dus" % (got, t),
+                                  dict(case, at={"step": si, "t": t, "server": i}), sig)
         for fu in (False, True):
             outs = []
             for sb in (A, B):
                 ids = [w.idx(s) for s in sb.get_servers_for_psi(psi, for_upload=fu)]
                 outs.append(ids)
-                lines.append(psi_line(w, sb, psi, fu))
+                lines.append(psi_line(w, sb, psi, fu, t))
                 impl.append(",".join(map(str, ids)) or "-")
-                cases.append(dict(case, at={"psi": psi_hex, "for_upload": fu}))
+                cases.append(dict(case, at={"step": si, "t": t, "for_upload": fu}))
                 canon.append(False)
-                ctx.case(lines[-1] if nconn >= 2 else None)
+                ctx.case((lines[-1], t) if nconn >= 2 else None)
                 ctx.count("psi:for_upload=%d" % fu)
-            monitor_psi(ctx, w, case, psi, fu, outs[0], outs[1])
-    full = list(A.get_servers_for_psi(bytes.fromhex(case["psi"][0])))
-    byidx = {w.idx(s): s for s in A.servers.values()}
-    for g in case["goals"]:
+            monitor_psi(ctx, w, case, si, psi, fu, t, outs[0], outs[1])
+        g = st["goal"]
+        if g is None:
+            continue
+        full = list(A.get_servers_for_psi(psi))
         p = Publish.__new__(Publish)
         p._log_number = None
         p._new_seqnum = 1
@@ -260,61 +297,87 @@ def run_case(ctx, case, workdir, lines, impl, cases, canon):
         p.bad_servers = set(byidx[i] for i in g["bad"])
         p.full_serverlist = list(full)
         before = set(p.goal)
+        tag = dict(g, step=si, t=t)
         try:
             p.update_goal()
             res = sorted((w.idx(s), sh) for (s, sh) in p.goal)
             out = ",".join("%d.%d" % x for x in res) or "-"
             for (s, sh) in p.goal - before:
                 i = w.idx(s)
-                if not w.permitted[i] or i in g["bad"]:
-                    ctx.violation("update_goal places a share on a server that is bad or has no valid grid-manager certificate",
-                                  dict(case, at=g), "publish-goal:unpermitted-server")
+                if i in g["bad"]:
+                    ctx.violation("update_goal places a share on a bad server", dict(case, at=tag), "publish-goal:bad-server")
+                elif not w.permitted(i, t):
+                    ctx.violation("update_goal places a share on a server without a currently valid grid-manager certificate (clock T0+%dus)" % t,
+                                  dict(case, at=tag), stale_sig(w, i, t, "publish-goal:unpermitted-server"))
             if set(sh for (_, sh) in p.goal) != set(range(g["total"])):
-                ctx.violation("update_goal left a share without a home", dict(case, at=g), "publish-goal:homeless-share")
+                ctx.violation("update_goal left a share without a home", dict(case, at=tag), "publish-goal:homeless-share")
         except NotEnoughServersError:
             out = "none"
-        toks = ["%d:1:%d:0" % (w.idx(s), 1 if w.permitted[w.idx(s)] else 0) for s in full]
-        lines.append("goal %d %s %s %s" % (g["total"], ",".join("%d.%d" % tuple(x) for x in g["goal"]) or "-",
-                                           ",".join(map(str, g["bad"])) or "-", " ".join(toks)))
-        lines[-1] = " ".join(lines[-1].split())
+            if any(w.permitted(w.idx(s), t) and w.idx(s) not in g["bad"] for s in full) and \
+                    set(sh for (i, sh) in g["goal"] if i not in g["bad"]) != set(range(g["total"])):
+                ctx.violation("update_goal found no server although a permitted, non-bad server is connected", dict(case, at=tag),
+                              "publish-goal:permitted-server-unused")
+        toks = ["%d:1:%d:0" % (w.idx(s), 1 if w.permitted(w.idx(s), t) else 0) for s in full]
+        lines.append(" ".join(("goal %d %s %s %s" % (g["total"], ",".join("%d.%d" % tuple(x) for x in g["goal"]) or "-",
+                                                      ",".join(map(str, g["bad"])) or "-", " ".join(toks))).split()))
         impl.append(out)
-        cases.append(dict(case, at=g))
+        cases.append(dict(case, at=tag))
         canon.append(True)
-        ctx.case(lines[-1] if nconn >= 2 else None)
+        ctx.case((lines[-1], t) if nconn >= 2 else None)
         ctx.count("goal:" + ("none" if out == "none" else "ok"))
-    ctx.count("servers:%d" % len(case["servers"]))
+    ctx.count("servers:%d" % n)
     ctx.count("gm-keys:%d" % len(case["gm_keys"]))
     ctx.count("preferred:%d" % len(case["preferred"]))
+    ctx.count("steps:%d" % len(case["steps"]))
 
 
 def corpus():
-    """peers.preferred from tahoe.cfg must move a server to the front (found 2026-09: the configured ids stay `str`, never equal to
-    the `bytes` server ids, so the unchanged tree ignores them) — every server in turn is the preferred one."""
     res = []
+    # peers.preferred from tahoe.cfg must move a server to the front (found 2026-09: the configured ids stayed `str`, never equal
+    # to the `bytes` server ids) — every server in turn is the preferred one
     for p in range(3):
         res.append({"gm_seeds": ["%02x" % (i + 1) * 32 for i in range(3)], "gm_keys": [],
                     "servers": [{"seed": "%02x" % (0x41 + i) * 32, "perm": None, "connected": True, "certs": [], "nickname": "srv%d" % i}
                                 for i in range(3)],
-                    "preferred": [["s", p]], "orders": [[0, 1, 2], [2, 0, 1]], "psi": ["00" * 16, "ff" * 16],
-                    "goals": [{"total": 3, "goal": [], "bad": []}]})
+                    "preferred": [["s", p]], "orders": [[0, 1, 2], [2, 0, 1]],
+                    "steps": [{"t": 0, "psi": "00" * 16, "goal": {"total": 3, "goal": [], "bad": []}},
+                              {"t": 5, "psi": "ff" * 16, "goal": None}]})
+    # a long-lived server object whose only certificate expires while the broker keeps being asked: permitted one microsecond
+    # before the expiry, not at the instant, not after; a second server stays valid
+    res.append({"gm_seeds": ["%02x" % (i + 1) * 32 for i in range(3)], "gm_keys": [0],
+                "servers": [{"seed": "51" * 32, "perm": None, "connected": True, "nickname": "a",
+                             "certs": [{"kind": "good", "gm": 0, "for": 0, "exp": 1000}]},
+                            {"seed": "52" * 32, "perm": None, "connected": True, "nickname": "b",
+                             "certs": [{"kind": "good", "gm": 0, "for": 1, "exp": 10**12}]}],
+                "preferred": [], "orders": [[0, 1], [1, 0]],
+                "steps": [{"t": t, "psi": "%02x" % k * 16, "goal": {"total": 2, "goal": [], "bad": []}}
+                          for k, t in enumerate([0, 999, 1000, 1001, 10**9])]})
     return res
 
 
 def run(ctx):
+    import allmydata.grid_manager as gm_mod
     workdir = os.path.join(os.path.dirname(os.path.dirname(os.path.dirname(os.path.abspath(__file__)))), ".work")
     if ctx.replay:
         c = dict(ctx.replay["case"])
         c.pop("at", None)
         gen = [c]
     else:
-        gen = corpus() + [gen_case(ctx.rng) for _ in range(ctx.budget(300, 6000))]
+        gen = corpus() + [gen_case(ctx.rng) for _ in range(ctx.budget(120, 2500))]
     lines, impl, cases, canon = [], [], [], []
-    for case in gen:
-        run_case(ctx, case, workdir, lines, impl, cases, canon)
+    real_clock = gm_mod.current_datetime_with_zone
+    # StorageFarmBroker._make_storage_server passes no now_fn: the verifiers read this module-level clock
+    gm_mod.current_datetime_with_zone = lambda: CLOCK[0]
+    try:
+        for case in gen:
+            run_case(ctx, case, workdir, lines, impl, cases, canon)
+    finally:
+        gm_mod.current_datetime_with_zone = real_clock
     model = ctx.model(lines)
     if model is not None:
         model = [(",".join(sorted(m.split(","), key=lambda t: tuple(map(int, t.split("."))))) if (c and m not in ("none", "-")) else m)
                  for m, c in zip(model, canon)]
-    ctx.compare("get_servers_for_psi (two brokers, both for_upload values) and Publish.update_goal", cases, impl, model)
+    ctx.compare("history on long-lived brokers: get_servers_for_psi (two brokers, both for_upload values) and Publish.update_goal at each clock step",
+                cases, impl, model)
     ctx.sample({"line": lines[0], "impl": impl[0]})
     ctx.sample({"line": lines[-1], "impl": impl[-1]})
